@@ -1,0 +1,17 @@
+//go:build verif
+
+package assert
+
+// Contracts for the deductive checker in /verif (comment-only file; adds no code).
+// The assertion helpers panic exactly when their argument is wrong, so their
+// contract is a precondition that every caller must establish.
+//
+//@ func True
+//@   trusted
+//@   requires p
+//@ func False
+//@   trusted
+//@   requires !p
+//@ func Unreachable
+//@   trusted
+//@   requires false
